@@ -628,6 +628,7 @@ func TestProp(t *testing.T) {
 			}
 			return CmpCase{A: a, B: rapid.SampledFrom(same).Draw(t, "b"), Rest: rapid.SliceOfN(rapid.SampledFrom(same), 0, 4).Draw(t, "rest")}
 		}, checkCmp),
+		hx.NewSub("multi", 3000, 30000, genMulti, checkMulti),
 		hx.NewSub("sort_keys", 3000, 20000, func(t *rapid.T) KeysCase { return KeysCase{Doc: genKeysDoc(t, 3).JSON()} }, checkKeys),
 		hx.NewSub("sort_keys_yaml", 1500, 10000, func(t *rapid.T) YKeysCase {
 			return YKeysCase{Keys: rapid.SliceOfNDistinct(rapid.SampledFrom(yamlKeyPool), 1, 8, func(s string) string { return s }).Draw(t, "keys")}
